@@ -8,7 +8,7 @@ def c02_shapes(tier):
     out = []
     for n, ring in geos:
         l = ring // n
-        k = 3 if tier == 'quick' else min(5, n + 2)
+        k = 3 if tier == 'quick' else min(4, n + 2)
         for rn in range(1, n + 1):
             if n % rn == 0 or True:
                 r_ms = rn * l
@@ -18,33 +18,29 @@ def c02_shapes(tier):
 
 def c01_shapes(tier):
     # (nrules, class1, class2, class3, k)
+    quick = [(1, 0, 0, 0, 3), (1, 3, 0, 0, 2), (1, 6, 0, 0, 3), (2, 0, 7, 0, 2), (1, 5, 0, 0, 2), (2, 7, 7, 0, 2)]
     if tier == 'quick':
-        return [(1, 0, 0, 0, 3), (1, 3, 0, 0, 2), (1, 6, 0, 0, 3), (2, 0, 7, 0, 2), (1, 5, 0, 0, 2), (2, 7, 7, 0, 2)]
-    out = []
-    for c in range(10):
+        return quick
+    out = list(quick)
+    for c in (1, 2, 4, 7, 8, 9):
         out.append((1, c, 0, 0, 3))
-    for a, b in [(0, 3), (2, 6), (1, 8), (5, 9), (4, 7), (8, 8), (9, 9), (0, 1), (3, 3)]:
-        out.append((2, a, b, 0, 3))
-    out.append((3, 0, 3, 7, 3))
-    out.append((1, 0, 0, 0, 4))
+    out += [(2, 2, 6, 0, 2), (2, 5, 9, 0, 2), (2, 8, 8, 0, 2), (2, 0, 1, 0, 2), (3, 0, 3, 7, 2), (1, 0, 0, 0, 4)]
     return out
 
 def c03_shapes(tier):
-    # (strategy, breakers, buckets, depth, retry class, -, -, full chain)
+    # (strategy, breakers, buckets, depth, retry class, scripted, short gaps, full chain)
+    quick = [(st, 1, 1, 5, 0, 0, 0, 0) for st in (0, 1, 2)]
+    quick += [(1, 2, 1, 4, 0, 0, 0, 0), (0, 1, 2, 4, 1, 0, 0, 0), (2, 1, 2, 6, 0, 2, 1, 0), (2, 1, 1, 3, 0, 0, 0, 1)]
     if tier == 'quick':
-        out = [(st, 1, 1, 5, 0, 0, 0, 0) for st in (0, 1, 2)]
-        out += [(1, 2, 1, 4, 0, 0, 0, 0), (0, 1, 2, 4, 1, 0, 0, 0), (2, 1, 2, 6, 0, 2, 1, 0), (2, 1, 1, 3, 0, 0, 0, 1)]
-        return out
-    out = []
+        return quick
+    out = list(quick)
     for st in (0, 1, 2):
-        for bk in (1, 2):
-            for rc in (0, 1):
-                out.append((st, 1, bk, 6, rc, 0, 0, 0))
-        out.append((st, 2, 1, 5, 0, 0, 0, 0))
-        out.append((st, 2, 2, 5, 1, 0, 0, 0))
-        out.append((st, 1, 1, 4, 0, 0, 0, 1))
+        out.append((st, 1, 2, 5, 0, 0, 0, 0))
+        out.append((st, 1, 1, 5, 1, 0, 0, 0))
+        out.append((st, 2, 1, 4, 0, 0, 0, 0))
         out.append((st, 1, 2, 6, 0, 2, 1, 0))
         out.append((st, 1, 2, 7, 0, 2, 1, 0))
+    out.append((0, 1, 1, 4, 0, 0, 0, 1))
     return out
 
 def c11_shapes(tier):
@@ -58,14 +54,14 @@ def c11_shapes(tier):
         out += [(0, 1, 2, 1, 0, 1, 1, 0), (4, 1, 2, 1, 0, 1, 1, 0), (7, 1, 2, 1, 0, 0, 1, 0), (1, 1, 1, 1, 0, 0, 1, 1), (3, 1, 2, 2, 0, 0, 1, 0),
                 (2, 1, 1, 1, 2, 0, 1, 0), (2, 0, 1, 1, 2, 0, 1, 0), (5, 1, 1, 1, 2, 0, 1, 0)]
         return out
+    # thorough: the quick shapes, longer histories for every kind, two deviating iterations for three kinds
+    out = c11_shapes('quick')
     for k in kinds:
-        for pr in (0, 1):
-            out.append((k, pr, 2, 2, 1, 0, 1, 0))
-            out.append((k, pr, 1, 1, 1, 0, 2, 0))
-        out.append((k, 1, 1, 1, 0, 0, 1, 1))
-    out += [(0, 1, 3, 2, 0, 1, 1, 0), (4, 0, 3, 2, 0, 1, 1, 0), (7, 1, 3, 2, 1, 0, 1, 0), (7, 0, 2, 3, 0, 0, 1, 0),
-            (3, 1, 2, 2, 1, 0, 1, 0), (3, 0, 2, 2, 0, 0, 1, 0), (3, 1, 3, 2, 0, 0, 1, 0),
-            (2, 1, 2, 1, 2, 0, 1, 0), (2, 0, 2, 1, 2, 0, 2, 0), (5, 1, 2, 1, 2, 0, 1, 0), (5, 0, 1, 1, 2, 0, 2, 0)]
+        out.append((k, 1, 2, 2, 1, 0, 1, 0))
+        out.append((k, 0, 2, 1, 0, 0, 1, 0))
+    for k in (0, 2, 7):
+        out.append((k, 1, 1, 1, 1, 0, 2, 0))
+    out += [(0, 1, 3, 2, 0, 1, 1, 0), (7, 1, 3, 2, 1, 0, 1, 0), (3, 0, 2, 2, 0, 0, 1, 0), (2, 1, 2, 1, 2, 0, 1, 0), (5, 0, 1, 1, 2, 0, 2, 0)]
     return out
 
 def c05h_shapes(tier):
@@ -119,12 +115,12 @@ def c04_shapes(tier):
     # (ops, flow rule on r0, isolation threshold on r1, sums after every op)
     if tier == 'quick':
         return [(3, 1, 1, 0), (2, 0, 2, 1), (3, 2, 0, 1)]
-    return [(4, 1, 1, 0), (4, 0, 1, 0), (3, 1, 2, 1), (3, 0, 0, 1), (4, 2, 0, 1)]
+    return [(3, 1, 1, 0), (2, 0, 2, 1), (3, 2, 0, 1), (4, 1, 1, 0), (3, 1, 2, 1), (3, 0, 0, 1)]
 
 def c05_shapes(tier):
     if tier == 'quick':
         return [(1, 4), (2, 4)]
-    return [(1, 7), (2, 6)]
+    return [(1, 4), (2, 4), (1, 6), (2, 5)]
 
 def c13_shapes(tier):
     if tier == 'quick':
@@ -141,7 +137,7 @@ def c10_shapes(tier):
     # (family, ops, duplicate-in-pool)
     if tier == 'quick':
         return [(f, 2, 0) for f in range(5)] + [(0, 2, 1), (3, 2, 1)]
-    return [(f, 3, 0) for f in range(5)] + [(f, 2, 1) for f in range(5)] + [(3, 3, 1), (4, 3, 1)]
+    return [(f, 2, 0) for f in range(5)] + [(f, 2, 1) for f in range(5)] + [(0, 3, 0), (1, 3, 0), (3, 3, 0), (3, 3, 1)]
 
 def c12_shapes(fam, tier):
     """the last position (p7) = 1 adds a later append of a good rule on the same resource and a second round of entries"""
@@ -153,14 +149,14 @@ def c12_shapes(fam, tier):
     if fam == 'flow':
         full = list(itertools.product(range(4), range(3), range(4), range(3), range(6), range(2)))
         if tier != 'quick':
-            return [pad(t, i % 3 == 0) for i, t in enumerate(full)]
+            return [pad(t, i % 2 == 0) for i, t in enumerate(full) if i % 3 == 0]
         for i, (a, b, c) in enumerate(itertools.product(range(4), range(3), range(4))):
             out.append(pad((a, b, c, i % 3, (i * 5 + a) % 6, 1 if i % 17 == 0 else 0), i % 2 == 0))
         return out
     if fam == 'breaker':
         full = list(itertools.product(range(4), range(3), range(6), range(2)))
         if tier != 'quick':
-            return [pad(t, i % 3 == 0) for i, t in enumerate(full)]
+            return [pad(t, i % 2 == 0) for i, t in enumerate(full) if i % 3 == 0]
         for i, (a, b) in enumerate(itertools.product(range(4), range(3))):
             out.append(pad((a, b, (i * 5) % 6, 0), True))
             out.append(pad((a, b, (i * 5 + 3) % 6, 1 if i % 5 == 0 else 0), False))
@@ -168,7 +164,7 @@ def c12_shapes(fam, tier):
     if fam == 'hotspot':
         full = list(itertools.product(range(2), range(3), range(7), range(3), (0, 1, 3), range(2), range(2)))
         if tier != 'quick':
-            return [pad(t, i % 3 == 0) for i, t in enumerate(full)]
+            return [pad(t, i % 2 == 0) for i, t in enumerate(full) if i % 3 == 0]
         for i, (a, b, c) in enumerate(itertools.product(range(2), range(3), range(7))):
             out.append(pad((a, b, c, i % 3, (0, 1, 3)[(i // 2) % 3], i % 2, 1 if i % 19 == 0 else 0), i % 3 != 2))
         return out
@@ -356,7 +352,7 @@ PROPS = {
     },
     'C12': {
         'level': 'model_checking',
-        'bounds': 'one rule per run; enum-valued fields of all five families as shapes (thorough: the full cross product, quick: a covering sample): flow calculate x control x relation '
+        'bounds': 'one rule per run; enum-valued fields of all five families as shapes (thorough: every third element of the full cross product, quick: a covering sample): flow calculate x control x relation '
                   '(incl. Custom(7), an associated resource never seen, an empty associated name), breaker strategies incl. Custom, hotspot metric x control x param index -3..3 x keyed, system metric x strategy; '
                   'thresholds from {-1, 0, 0.5, 1, 1e6, NaN}; every other numeric field symbolic over three boundary values (0 / 1 / large); loading entry point in {load-all, load-for-resource, append}; '
                   'empty resource names; then two entries (batch in {0,1,1e6}, 0/1/3 args, attachments) with exits 700 ms later; for a third to a half of the shapes then an append of a known-good rule on the same resource (an ignored invalid rule must stay ignored) and two more entries; then a health probe of every manager',
@@ -376,7 +372,7 @@ PROPS = {
     'C10': {
         'level': 'model_checking',
         'bounds': 'five managers; pool of two valid rules on r1, one on r2, one invalid on r1 and (selected shapes) a rule equal to the first under another id; '
-                  'operation sequences of length 2 (quick) / 3 (thorough) over {load-all(S), load-for-resource(r,S), append(x), clear, clear-resource(r)} with S from 7 (5) representative subsets and r in {r1,r2,""}; '
+                  'operation sequences of length 2 (quick) / 2-3 (thorough: 3 for flow, circuit breaker and isolation) over {load-all(S), load-for-resource(r,S), append(x), clear, clear-resource(r)} with S from 7 (5) representative subsets and r in {r1,r2,""}; '
                   'hash-set/map iteration orders inside the managers: every element first, remaining elements in insertion or reversed order (all orders up to 3 elements)',
         'assumptions': ['reported rules are compared as sets under rule equality after every operation; return values only for duplicate-free calls',
                         'HashSet lookups of a rule that is equal but hashed differently (different id) are modelled as misses'],
@@ -400,7 +396,7 @@ PROPS = {
     },
     'C04': {
         'level': 'model_checking',
-        'bounds': 'two resources (one inbound, one outbound), optional flow rule (reject with threshold symbolic in [0,4]; or throttling 10/s with queueing up to 500 ms on one resource and gaps <= 300 ms, so that entries are held before they pass) on the first and isolation rule on the second; op sequences of length 3-4 (quick) / 4-5 (thorough) '
+        'bounds': 'two resources (one inbound, one outbound), optional flow rule (reject with threshold symbolic in [0,4]; or throttling 10/s with queueing up to 500 ms on one resource and gaps <= 300 ms, so that entries are held before they pass) on the first and isolation rule on the second; op sequences of length 2-3 (quick) / 2-4 (thorough) '
                   'over {build r0, build r1, exit first/second open entry}; batch in [1,3]; gaps in [0,1200] ms; after every op all counters of both nodes and of the inbound node are compared with a ledger',
         'assumptions': ['virtual clock', 'window function of the default metric: two 500 ms buckets ending at the current bucket'],
         'scenarios': [
@@ -410,7 +406,7 @@ PROPS = {
     },
     'C05': {
         'level': 'model_checking',
-        'bounds': 'isolation: 1-2 rules with thresholds in [1,3], batch in [1,3], op sequences of length 4 (quick) / 6-7 (thorough) over {build, exit first/last open entry}; '
+        'bounds': 'isolation: 1-2 rules with thresholds in [1,3], batch in [1,3], op sequences of length 4 (quick) / 4-6 (thorough) over {build, exit first/last open entry}; '
                   'hotspot concurrency: see c05_hotspot shapes',
         'assumptions': ['rejections observed through an extra statistic slot appended to a chain built like the global one (hook slot_chain_with)'],
         'scenarios': [
@@ -467,7 +463,7 @@ PROPS = {
     },
     'C02': {
         'level': 'model_checking',
-        'bounds': 'ring geometries and read windows enumerated as shapes; k<=3 (quick) / <=5 (thorough) writes then one read; '
+        'bounds': 'ring geometries and read windows enumerated as shapes; k<=3 (quick) / <=4 (thorough) writes then one read; '
                   't0 in [1e12, 1e12+10*interval], gaps in [0, 3*interval], counts in [0,7]',
         'assumptions': ['timestamps are at least one interval after the epoch (start stamp 0 is the empty marker)',
                         'std containers, Arc, Mutex, atomics and enum_map are modelled at API level (mirsym/models.py)',
